@@ -13,9 +13,10 @@ The theorems of `C13Sched`, `C13Balance`, `C13Guards`, `C13Flow` are stated for 
 the configuration regenerated from /repo on every check run (tools/translate/interrupts.py); the hypotheses
 become side conditions decided by the kernel on that data.
 
-Three fields describe repairs of defects found while building this check (findings.d/C13.json); the
-theorems that need them keep them as hypotheses, and the negation witnesses below show on concrete programs
-what goes wrong without them:
+Three fields describe repairs of defects found while building this check (applied to /repo as 96951b7d and
+f18ee090); they are side conditions like the others now (`gen_repaired`), and the `legacy_*` theorems below
+show on concrete programs what goes wrong in the model when one of them is false (they are what the check
+falls back on, to name the failing input, if one of the repairs is ever undone):
 
 * `tiCheckSkipsSub` — invariants are not re-checked by runTryInterrupt while a sub-behaviour is in progress;
 * `nestedFlow`      — `break`/`continue`/`return` in handlers of *nested* try-interrupt statements;
@@ -41,6 +42,15 @@ theorem gen_checks : interruptCfg.tiCheck = true ∧ interruptCfg.checkAfterInvo
 
 /-- `_invokeInner` stops the sub-behaviour in a `finally` -/
 theorem gen_stop : interruptCfg.stopInFinally = true := by decide
+
+/-- the repairs 96951b7d (no invariant re-check while a sub-behaviour is in progress), f18ee090 (nested
+    break/continue/return, names of nested statements) and 41fb4809 (runTryInterrupt closes the blocks that
+    are still suspended when it is left, in a `finally`) are in the code -/
+theorem gen_repaired : interruptCfg.tiCheckSkipsSub = true ∧ interruptCfg.nestedFlow = true ∧
+    interruptCfg.nestedNames = true ∧ interruptCfg.closeBlocks = true := by decide
+
+/-- all in one: the extracted configuration is the specified one -/
+theorem gen_is_spec : interruptCfg = Cfg.spec := by decide
 
 /-! ## the property theorems on the generated configuration -/
 
@@ -70,14 +80,21 @@ theorem handler_finished_continues (P : Prog) (env : Env) (fuel self : Nat) (inS
     continue / return / `until`) is stopped; invariant form -/
 theorem abandoned_subs_stopped (P : Prog) (env : Env) (fuel self : Nat) (inSub : Bool) (task : Task) :
     Bal task.subs (go interruptCfg P env fuel self inSub task) :=
-  balance interruptCfg gen_stop P env fuel self inSub task
+  balance interruptCfg gen_stop gen_repaired.2.2.2 P env fuel self inSub task
 
 theorem abandoned_subs_stopped_run (P : Prog) (envAt : Nat → Env) (fuel main steps : Nat)
     (hok : (simulate interruptCfg P envAt fuel main steps).outcome = .ok) (b : Nat) :
     nStart b (simulate interruptCfg P envAt fuel main steps).events.flatten
       = nStop b (simulate interruptCfg P envAt fuel main steps).events.flatten
         + (simulate interruptCfg P envAt fuel main steps).pending.count b :=
-  simulate_balance interruptCfg gen_stop P envAt fuel main steps hok b
+  simulate_balance interruptCfg gen_stop gen_repaired.2.2.2 P envAt fuel main steps hok b
+
+/-- ... also when the simulation is ended by a guard violation: nothing that was started is left running -/
+theorem abandoned_subs_stopped_on_violation (P : Prog) (envAt : Nat → Env) (fuel main steps : Nat) (v : Viol) (t : Nat)
+    (hv : (simulate interruptCfg P envAt fuel main steps).outcome = .violation v t) (b : Nat) :
+    nStart b (simulate interruptCfg P envAt fuel main steps).events.flatten
+      = nStop b (simulate interruptCfg P envAt fuel main steps).events.flatten :=
+  simulate_balance_viol interruptCfg gen_stop gen_repaired.2.2.2 P envAt fuel main steps v t hv b
 
 theorem guards_at_start (P : Prog) (env : Env) (b : Nat) :
     (startChecks interruptCfg P env b).2 = none ↔ ∀ g ∈ (getBeh P b).pre ++ (getBeh P b).inv, env.guard g = 1 :=
@@ -94,12 +111,12 @@ theorem guards_on_try_resume (P : Prog) (env : Env) (fuel self : Nat)
     (hq : (kindIsDoUntil kind || blkHasSub body || blksHaveSub hs) = false) :
     go interruptCfg P env (fuel + 1) self false (.resume (.atTry kind body hs l c)) =
       match invCheck P env self with
-      | (lg, some v) => .viol v lg
+      | (lg, some v) => .viol v (lg ++ closeStops interruptCfg (blkSubs body ++ blksSubs hs))
       | (lg, none) => (go interruptCfg P env fuel self false (.loopTI kind body hs l c)).pre lg :=
   try_resume_checks interruptCfg gen_checks.1 P env fuel self kind body hs l c hq
 
-/-- holds for the code once `tiCheckSkipsSub` is extracted as true (see `legacy_checks_invariant_during_sub`) -/
-theorem guards_not_during_sub (hfix : interruptCfg.tiCheckSkipsSub = true) (P : Prog) (env : Env)
+/-- (see `legacy_checks_invariant_during_sub` for what happens without `tiCheckSkipsSub`) -/
+theorem guards_not_during_sub (P : Prog) (env : Env)
     (fuel self : Nat) (inSub : Bool) (k : K) (b : Nat) (sub : K) (h : K.subLeaf interruptCfg env k = some (b, sub)) :
     match go interruptCfg P env fuel self inSub (.resume k) with
     | .yielded a _ lg =>
@@ -107,19 +124,19 @@ theorem guards_not_during_sub (hfix : interruptCfg.tiCheckSkipsSub = true) (P : 
         ∨ SubDone interruptCfg P env b sub
     | .done _ _ => SubDone interruptCfg P env b sub
     | _ => True :=
-  no_check_while_sub_runs interruptCfg hfix P env fuel self inSub k b sub h
+  no_check_while_sub_runs interruptCfg gen_repaired.1 P env fuel self inSub k b sub h
 
-/-- holds for the code once `nestedFlow` is extracted as true (see the `legacy_nested_*` witnesses) -/
-theorem control_flags_exact (hfix : interruptCfg.nestedFlow = true) (ctx : LCtx) (st : LSt)
+/-- (see the `legacy_nested_*` theorems for what happens without `nestedFlow`) -/
+theorem control_flags_exact (ctx : LCtx) (st : LSt)
     (body : List Stmt) (hs : List (Nat × List Stmt)) (code : List L) (st' : LSt)
     (h : lowerS interruptCfg ctx st (.tryI body hs) = some (code, st')) :
     ∃ fl b codes, code = [L.tryI (.user fl) b (zipRuntime interruptCfg (hs.map (·.1)) codes)] ∧ codes.length = hs.length ∧
       fl.emitBrk = (escBrkL b || codes.any escBrkL) ∧
       fl.emitCont = (escContL b || codes.any escContL) ∧
       fl.retWrap = ctx.inBlock :=
-  lower_try_flags interruptCfg hfix ctx st body hs code st' h
+  lower_try_flags interruptCfg gen_repaired.2.1 ctx st body hs code st' h
 
-/-! ## concrete runs: satisfiability examples and negation witnesses -/
+/-! ## concrete runs: satisfiability examples, and what each repaired configuration field is needed for -/
 
 def envOf (ct gt : List (List Nat)) (t : Nat) : Env :=
   { cond := fun c => (ct.getD c []).getD t 0 == 1, guard := fun g => (gt.getD g []).getD t 1 }
@@ -131,13 +148,14 @@ def runS (cfg : Cfg) (p : List SBeh) (ct gt : List (List Nat)) (steps : Nat) : O
 def legacyChecks : Cfg := { Cfg.spec with tiCheckSkipsSub := false }
 def legacyFlow : Cfg := { Cfg.spec with nestedFlow := false }
 def legacyNames : Cfg := { Cfg.spec with nestedNames := false }
+def legacyClose : Cfg := { Cfg.spec with closeBlocks := false }
 
 /-- `try: do B1() interrupt when c0: take 9` in a behaviour with invariant g0; B1 takes 1, 2, 3 -/
 def progSubInTry : List SBeh :=
   [ { pre := [], inv := [0], body := [.tryI [.doSub 1 none] [(0, [.take 9])]] },
     { pre := [], inv := [], body := [.take 1, .take 2, .take 3] } ]
 
-/-- Negation witness (D1): the invariant of the invoking behaviour is false only while the sub-behaviour runs
+/-- Without `tiCheckSkipsSub` (code before 96951b7d): the invariant of the invoking behaviour is false only while the sub-behaviour runs
     (step 2) and true again when it has finished.  A plain `do B1()` never looks at it then; under
     try-interrupt the unrepaired runTryInterrupt reports an invariant violation at step 2. -/
 theorem legacy_checks_invariant_during_sub :
@@ -165,7 +183,7 @@ def progBreakClobbered : List SBeh :=
       [.forN 3 [.tryI [.take 1, .take 2] [(0, [.brk]), (1, [.tryI [.take 3] [(2, [.take 4])]])], .take 8],
        .take 9] } ]
 
-/-- Negation witness (D3): a nested statement in a later clause resets the outer statement's `usedBreak`:
+/-- Without `nestedFlow` (code before f18ee090): a nested statement in a later clause resets the outer statement's `usedBreak`:
     the `break` only aborts the statement and the loop goes on (1 8 1 2 8 1 instead of 1 9). -/
 theorem legacy_nested_break_lost :
     runS legacyFlow progBreakClobbered [[0,1,0,0,0,0]] [] 6
@@ -179,7 +197,7 @@ def progNestedReturn : List SBeh :=
   [ { pre := [], inv := [], body :=
       [.tryI [.tryI [.take 1, .take 2] [(0, [.ret])], .take 3] [(1, [.take 5])], .take 8, .take 9] } ]
 
-/-- Negation witness (D4): `return` in a handler of a nested statement only aborts the outer statement. -/
+/-- Without `nestedFlow`: `return` in a handler of a nested statement only aborts the outer statement. -/
 theorem legacy_nested_return_lost :
     runS legacyFlow progNestedReturn [[0,1,0,0,0,0]] [] 6
       = some ([some 1, some 8, some 9, none, none, none], .ok)
@@ -192,7 +210,7 @@ def progNestedBreak : List SBeh :=
   [ { pre := [], inv := [], body :=
       [.forN 3 [.tryI [.tryI [.take 1, .take 2] [(0, [.brk])]] [(1, [.take 5])], .take 8], .take 9] } ]
 
-/-- Negation witness (D2/D5): `break` in a handler of a nested statement does not even compile
+/-- Without `nestedFlow`: `break` in a handler of a nested statement does not even compile
     ("'break' outside loop"); with the repair it leaves the loop. -/
 theorem legacy_nested_break_does_not_compile :
     runS legacyFlow progNestedBreak [[0,1,0,0,0,0]] [] 6 = none
@@ -205,7 +223,7 @@ def progMoreHandlersInside : List SBeh :=
   [ { pre := [], inv := [], body :=
       [.tryI [.tryI [.take 1, .take 2, .take 3] [(0, [.take 4]), (1, [.take 5])]] [(2, [.take 6])], .take 9] } ]
 
-/-- Negation witness (D6): a nested statement with more handlers than any statement at behaviour level does
+/-- Without `nestedNames` (code before f18ee090): a nested statement with more handlers than any statement at behaviour level does
     not compile ("no binding for nonlocal '_Scenic_interrupt_condition_1'"). -/
 theorem legacy_nested_names_do_not_compile :
     runS legacyNames progMoreHandlersInside [[0,1,0,0,0,0],[0,0,1,0,0,0],[0,0,0,1,0,0]] [] 6 = none
@@ -229,6 +247,25 @@ theorem example_abort_stops_subs :
     = some ([some 1, some 2, some 9, some 1, some 2, some 3],
             [[.sstart 1, .sstart 2], [], [.sstop 2, .sstop 1], [.sstart 1, .sstart 2], [], [], []]) := by
   decide +kernel
+
+/-- `try: do B1() / interrupt when c0: take 5` in a behaviour with invariant g0; B1 takes 1, 2, 3 -/
+def progViolWhileSubSuspended : List SBeh :=
+  [ { pre := [], inv := [0], body := [.tryI [.doSub 1 none] [(0, [.take 5])]] },
+    { pre := [], inv := [], body := [.take 1, .take 2, .take 3] } ]
+
+/-- Without `closeBlocks` (code before 41fb4809): the invariant fails at step 2, when the handler is resumed
+    after its action, while the pre-empted body is suspended inside B1: B1 is not stopped in that step (it is
+    finalised only after the simulation has ended).  With the repair its stop is part of the step. -/
+theorem legacy_violation_leaves_sub_running :
+    (lowerProg legacyClose progViolWhileSubSuspended).map (fun P =>
+      let tr := simulate legacyClose P (envOf [[0,1,0,0]] [[1,1,0,1]]) 200 0 4
+      (tr.outcome, tr.events.flatten.count (.sstart 1), tr.events.flatten.count (.sstop 1)))
+      = some (.violation ⟨.inv, 0⟩ 2, 1, 0)
+    ∧ (lowerProg Cfg.spec progViolWhileSubSuspended).map (fun P =>
+      let tr := simulate Cfg.spec P (envOf [[0,1,0,0]] [[1,1,0,1]]) 200 0 4
+      (tr.outcome, tr.events.flatten.count (.sstart 1), tr.events.flatten.count (.sstop 1)))
+      = some (.violation ⟨.inv, 0⟩ 2, 1, 1) := by
+  constructor <;> decide +kernel
 
 /-- Example for `preempt_latest_enabled`: clauses `[c0 (running), c1 (enabled), c2 (neither)]` in source
     order -> runtime index 1 = clause 1 is picked -/
